@@ -235,11 +235,12 @@ CHECKS["C03"] = dict(
     level_note="The Go scheduler is not owned: interleavings inside the few instructions between hook points are sampled, not enumerated; the yields make the narrow windows likely, not certain.",
     rule="rapid draws batches/task kinds/release picks/yield table (white box) or graph, input, paradigm, release picks, yield table (black box); non-trivial = overflow list held >= 2 finished tasks or >= 3 gated bodies outstanding at once (white box) / >= 2 bodies overlapped and the release order differs from identity (black box); distinct = FNV-1a of case JSON",
     assumptions=GRAPH_ASSUME + ["hook points compiled in with -tags verif (add-only, MANIFEST.hooks)"],
-    parts=[rapid_part("taskmanager", "compose", "TestC03TaskManager", 3000, 40000, race=True, tags="verif", replay_test="TestC03TaskManagerReplay")],
+    parts=[rapid_part("taskmanager", "compose", "TestC03TaskManager", 2000, 30000, race=True, tags="verif", replay_test="TestC03TaskManagerReplay"),
+           rapid_part("graphs", "compose", "TestC03", 250, 2500, qshards=4, race=True, tags="verif", replay_test="TestC03Replay")],
 )
 
 # properties not claimed (with reason); everything else not in CHECKS is "not built yet"
 NOT_APPLICABLE = {}
 
 # commits in /repo that add build-tag guarded hooks
-HOOK_COMMITS = ["16307db"]
+HOOK_COMMITS = ["16307db", "28e1cb0"]
